@@ -240,7 +240,10 @@ impl Prop for PRegex {
         let (dir, index) = self.cache.get(&key).unwrap();
         let pattern = cps_to_string(&input["pattern"]);
         let icase = input["icase"].as_bool().unwrap_or(false);
-        let mut args: Vec<String> = vec!["r".into()];
+        // the starting point as spelled: "r", "r/" or "r//" (the path the expression sees is the path as printed)
+        let slashes = input.get("rootslash").and_then(|r| r.as_u64()).unwrap_or(0) as usize;
+        let spell = format!("r{}", "/".repeat(slashes));
+        let mut args: Vec<String> = vec![spell.clone()];
         for w in arr(&input["words"]) {
             match w["w"].as_str().unwrap_or("") {
                 "rt" => {
@@ -264,7 +267,23 @@ impl Prop for PRegex {
         if r.panicked {
             return json!({"panic": true, "args": args});
         }
-        let mut m: Vec<usize> = split_nul(&r.out).iter().map(|p| index.get(p).copied().unwrap_or(0)).collect();
+        // printed paths back to indices: "r//x" and "r/x" are the entry r/x, "r/" and "r//" the starting point
+        let canon = |p: &Vec<u8>| -> Vec<u8> {
+            if slashes == 0 {
+                return p.clone();
+            }
+            let sp = spell.as_bytes();
+            if p.as_slice() == sp {
+                b"r".to_vec()
+            } else if p.starts_with(sp) {
+                let mut v = b"r/".to_vec();
+                v.extend(&p[sp.len()..]);
+                v
+            } else {
+                b"<not below the starting point as spelled>".to_vec()
+            }
+        };
+        let mut m: Vec<usize> = split_nul(&r.out).iter().map(|p| index.get(&canon(p)).copied().unwrap_or(0)).collect();
         m.sort();
         let mut o = json!({"m": m});
         if r.exit != 0 {
@@ -314,7 +333,26 @@ impl Prop for PRegex {
             }
         }
         let words = if syn == "none" { json!([{"w": "RE"}]) } else { json!([{"w": "rt", "rt": syn}, {"w": "RE"}]) };
-        json!({"words": words, "ast": ast, "syn": eff, "pattern": pat, "icase": rng.chance(1, 4), "names": names})
+        let mut v = json!({"words": words, "ast": ast, "syn": eff, "pattern": pat, "icase": rng.chance(1, 4), "names": names, "rootslash": 0});
+        if rng.chance(1, 6) {
+            // the starting point spelled "r/" or "r//": the pattern is matched against exactly that
+            let r = json!({"t": "c", "c": 114});
+            let sl = json!({"t": "c", "c": 47});
+            let ast = match rng.below(6) {
+                0 => r.clone(),
+                1 => json!({"t": "cat", "a": r, "b": sl}),
+                2 => json!({"t": "cat", "a": r, "b": {"t": "star", "a": sl}}),
+                3 => json!({"t": "cat", "a": {"t": "star", "a": {"t": "any"}}, "b": sl}),
+                4 => json!({"t": "cat", "a": r, "b": {"t": "cat", "a": sl, "b": sl}}),
+                _ => json!({"t": "set", "cs": [114, 47], "neg": false}),
+            };
+            let mut pat = vec![];
+            render(&ast, eff, &mut pat);
+            v["ast"] = ast;
+            v["pattern"] = json!(pat);
+            v["rootslash"] = json!(1 + rng.below(2));
+        }
+        v
     }
 
     fn same(&self, exp: &Value, obs: &Value) -> bool {
